@@ -11,14 +11,16 @@ PROPERTIES = {}
 
 
 def K(id, props, crate, anchor, module, harness, kind, fns, contract="", tier="quick", timeout=300,
-      attrs=None, quick_props=None, zflags=None, unwindset=None, rss_gb=None, kani_args=None):
+      attrs=None, quick_props=None, zflags=None, unwindset=None, rss_gb=None, kani_args=None, cbmc_args=None):
     """unwindset: [(regex on the demangled function containing a loop, bound)] -- per-loop bounds added to the harness'
     #[kani::unwind(n)] (looked up in the goto binary at run time, see tools/check.py discover_unwindset).
-    kani_args: extra `cargo kani` options for the invocation that runs this harness (e.g. "--no-assertion-reach-checks")."""
+    kani_args: extra `cargo kani` options for the invocation that runs this harness (e.g. "--no-assertion-reach-checks").
+    cbmc_args: extra CBMC options (passed after --cbmc-args; the harness then runs in the separate "special" invocation that
+    also serves unwindset rows), e.g. ["--max-field-sensitivity-array-size", "512"]: analysis precision only, no effect on soundness."""
     OBLIGATIONS.append(dict(id=id, props=props, crate=crate, anchor=anchor, module=module, harness=harness,
                             kind=kind, fns=fns, contract=contract, tier=tier, timeout=timeout, backend="kani",
                             attrs=attrs or [], quick_props=quick_props, zflags=zflags or [], unwindset=unwindset or [], rss_gb=rss_gb,
-                            kani_args=kani_args or []))
+                            kani_args=kani_args or [], cbmc_args=cbmc_args or []))
 
 
 def V(id, props, anchor, fns, spec, contract="", tier="quick", timeout=120, quick_props=None):
